@@ -138,6 +138,27 @@ Theorem C04_evolution_run_transparent :
 Proof. exact evolution_run_transparent. Qed.
 Print Assumptions C04_evolution_run_transparent.
 
+(* a whole search session, the FIRST init included: optionally a cache
+   restored from a previous session (search::load), individuals evaluated
+   before the first run, then for every run -- run 0 as well --
+   validation_strategy::init (data change + clear of the cached evaluators),
+   the evolution, close (data change + clear), the final measurements; closed
+   by search::save.  Every such history satisfies the premise of the proxy
+   theorem, so the proxy is transparent along it.  (That the real dss::init
+   clears for run 0 too is what the D scripts of the check exercise.) *)
+Theorem C04_search_session_transparent :
+  forall (ind data : Type) (sig : ind -> key) (eva : data -> ind -> fitness) (P : ind -> Prop)
+         (eva_toks : list tok) (eva_load : list tok -> option (list tok)),
+  (forall x y, P x -> P y -> sig x = sig y -> forall d, eva d x = eva d y) ->
+  (forall x, P x -> sig x <> key0) ->
+  (forall r, eva_load (eva_toks ++ r) = Some r) ->
+  forall bits d restored pre runs,
+  Forall P pre -> Forall (run_inds ind data P) runs ->
+  qrun ind data sig eva eva_toks eva_load (mkp data (fresh bits) d) (search_session ind data restored pre runs) =
+    (qdirect ind data eva d (search_session ind data restored pre runs), true).
+Proof. exact search_session_transparent. Qed.
+Print Assumptions C04_search_session_transparent.
+
 (* an empty fitness is never a hit: the wrapped evaluator is called again *)
 Theorem C04_proxy_empty_recomputed : forall t sg now,
   snd (fst (proxy_eval (insert t sg []) sg now)) = true /\
@@ -225,6 +246,19 @@ Example C04_nonvacuous_evolution :
        (mkp N (fresh 7) 1) evs =
   ([Some [13]; Some [14]; Some [15]; Some [14]; None; None; Some [24]; Some [25]; Some [26]; None;
     Some [25]; Some [23]], true).
+Proof. vm_compute. reflexivity. Qed.
+
+(* individuals evaluated on the full data BEFORE the first init, then run 0
+   (init changes the data: the same individuals are recomputed), then run 1 *)
+Example C04_nonvacuous_search_session :
+  let sig := fun x : N => (x + 1, 7) in
+  let eva := fun (d : N) (x : N) => [d * 10 + x] in
+  let evs := search_session N N true [3; 4]
+               [(2, 3, [(None, 3, [4]); (Some 5, 4, [3])], 6, [3]); (7, 4, [], 8, [])] in
+  fst (qrun N N sig eva [TNum 4242; TNL] (fun s => match read_num s with Some (4242, r) => Some r | _ => None end)
+            (mkp N (fresh 7) 1) evs) =
+  [None; Some [13]; Some [14]; None; None; Some [23]; Some [24]; None; None; Some [54]; Some [53];
+   None; None; Some [63]; None; None; Some [74]; None; None; None].
 Proof. vm_compute. reflexivity. Qed.
 
 (* the boundary of `k' <> key0`: clear(key) leaves a zeroed key, a live seal
